@@ -10,13 +10,9 @@ pub mod l6 {
       pub struct Prog;
       relation r0(i64);
       relation r1(i64, i64);
-      lattice r2(i64, Option<i64>);
-      r2(v0, None) <-- r0(v0) if ((*v0) < 6);
-      r2(3, v0) <-- r2(3, v0), r1(v1, v1);
-      r2(v0, v1) <-- r2(v0, v1), r2(0, v2);
-      r2(v0, Some((*v0))) <-- r0(v0);
-      r0(v1) <-- r1(v0, v1) if ((*v0) < 2), r2(v1, v2);
-      r2(v0, Some((*v0))) <-- r1(v0, 1);
+      lattice r2(i64, Dual<i64>);
+      r2(v0, Dual((*v0))) <-- r0(v0) if ((*v0) < 6);
+      r2(((*v0) + 1), Dual((*v1))) <-- r0(v0), r1(v0, v1) if ((*v0) < 2), if ((*v0) < 6);
    }
    pub struct Inst { p: Prog, pool: Option<ascent::rayon::ThreadPool> }
    pub fn make(pool: Option<usize>) -> Box<dyn Driver> {
@@ -29,12 +25,13 @@ pub mod l6 {
          match rel {
          0 => { let v: Vec<(i64,)> = parse_rows(rows)?; if append { self.p.r0.extend(v) } else { self.p.r0 = v } },
          1 => { let v: Vec<(i64,i64,)> = parse_rows(rows)?; if append { self.p.r1.extend(v) } else { self.p.r1 = v } },
-         2 => { let v: Vec<(i64,Option<i64>,)> = parse_rows(rows)?; if append { self.p.r2.extend(v) } else { self.p.r2 = v } },
+         2 => { let v: Vec<(i64,Dual<i64>,)> = parse_rows(rows)?; if append { self.p.r2.extend(v) } else { self.p.r2 = v } },
             _ => return None,
          }
          Some(())
       }
       fn run(&mut self) { match &self.pool { Some(pl) => { let p = &mut self.p; pl.install(|| p.run()) }, None => self.p.run() } }
+      fn run_here(&mut self) { self.p.run() }
       fn run_timeout(&mut self, k: usize) -> Option<bool> { let _ = k; None }
       fn dump(&self) -> String { vec![dump_rel(0, self.p.r0.iter().map(Row::render).collect()), dump_rel(1, self.p.r1.iter().map(Row::render).collect()), dump_rel(2, self.p.r2.iter().map(Row::render).collect())].join(" | ") }
       fn iters(&self) -> String { format!("iters {}", self.p.scc_iters.iter().map(|x| x.to_string()).collect::<Vec<_>>().join(" ")) }
@@ -79,6 +76,7 @@ pub mod l14 {
          Some(())
       }
       fn run(&mut self) { match &self.pool { Some(pl) => { let p = &mut self.p; pl.install(|| p.run()) }, None => self.p.run() } }
+      fn run_here(&mut self) { self.p.run() }
       fn run_timeout(&mut self, k: usize) -> Option<bool> { let _ = k; None }
       fn dump(&self) -> String { vec![dump_rel(0, self.p.r0.iter().map(Row::render).collect()), dump_rel(1, self.p.r1.iter().map(Row::render).collect()), dump_rel(2, self.p.r2.iter().map(Row::render).collect()), dump_rel(3, self.p.r3.iter().map(Row::render).collect()), dump_rel(4, self.p.r4.iter().map(Row::render).collect())].join(" | ") }
       fn iters(&self) -> String { format!("iters {}", self.p.scc_iters.iter().map(|x| x.to_string()).collect::<Vec<_>>().join(" ")) }
